@@ -165,14 +165,14 @@ Placements(D) == [D -> {"reac", "prod", "drop"}]
 KeptCols(D, pl) == {j \in Cols : j \notin DuplCols(D)}
                    \cup {p[1] : p \in {q \in D : pl[q] = "reac"}} \cup {p[2] : p \in {q \in D : pl[q] = "prod"}}
 SubMatrix(S) == SubCols(A, SetToSortSeq(S, <))
-PlacementClasses(D) == {ClassInfo(SubMatrix(KeptCols(D, pl)), PosBoxB, CertBoxY).c : pl \in Placements(D)}
-
+\* class of every placement, computed once per problem (ChooseDupl stores the result in info)
+PlacementClassMap(D) ==
+    Eager([pl \in Placements(D) |-> ClassInfo(SubMatrix(KeptCols(D, pl)), PosBoxB, CertBoxY).c])
 \* sub-class of a duplicate problem: some placement that keeps every duplicate on one side has a
 \* positive solution ("place"), only placements that drop a duplicate have one ("drop"), none has
-DuplTag(D) ==
-    LET cls(pl) == ClassInfo(SubMatrix(KeptCols(D, pl)), PosBoxB, CertBoxY).c IN
-    IF \E pl \in [D -> {"reac", "prod"}] : SomePositive(cls(pl)) THEN "dupl-place"
-    ELSE IF \E pl \in Placements(D) : SomePositive(cls(pl)) THEN "dupl-drop"
+DuplTagOf(D, pcm) ==
+    IF \E pl \in DOMAIN pcm : (\A q \in D : pl[q] # "drop") /\ SomePositive(pcm[pl]) THEN "dupl-place"
+    ELSE IF \E pl \in DOMAIN pcm : SomePositive(pcm[pl]) THEN "dupl-drop"
     ELSE "dupl-none"
 
 JudgeDupl(res, D) ==
@@ -253,7 +253,8 @@ ChooseDupl(D) ==
     /\ stage = "classified" /\ dupl = {}
     /\ ValidDupl(comp, nr, D)
     /\ dupl' = D
-    /\ info' = [info EXCEPT !.dtag = DuplTag(D), !.dcls = PlacementClasses(D)]
+    /\ LET pcm == PlacementClassMap(D)
+       IN  info' = [info EXCEPT !.dtag = DuplTagOf(D, pcm), !.dcls = {pcm[pl] : pl \in DOMAIN pcm}]
     /\ UNCHANGED <<comp, nr, np, nk, crow, scale, filled, stage, mode, outcome>>
 
 ChooseMode(m) ==
